@@ -22,9 +22,9 @@ PROPS = {
     "C13": {"jobs": [{"pkg": "conc", "run": "^TestC13Coop$", "checks_quick": 4000, "checks_thorough": 30000, "shards_thorough": 12},
                      {"pkg": "conc", "run": "^TestC13Free$", "race": True, "wal": True, "checks_quick": 250, "checks_thorough": 4000, "shards_quick": 4, "shards_thorough": 8}],
             "timeout_quick": 1200, "timeout_thorough": 5400},
-    "C14": {"jobs": [{"pkg": "conc", "run": "^TestC14Coop$", "checks_quick": 5000, "checks_thorough": 30000, "shards_thorough": 12},
-                     {"pkg": "conc", "run": "^TestC14Free$", "race": True, "wal": True, "checks_quick": 250, "checks_thorough": 4000, "shards_quick": 4, "shards_thorough": 8}],
-            "timeout_quick": 1200, "timeout_thorough": 5400},
+    "C14": {"jobs": [{"pkg": "conc", "run": "^TestC14Coop$", "checks_quick": 5000, "checks_thorough": 20000, "shards_thorough": 12},
+                     {"pkg": "conc", "run": "^TestC14Free$", "race": True, "wal": True, "checks_quick": 250, "checks_thorough": 3000, "shards_quick": 4, "shards_thorough": 8}],
+            "timeout_quick": 1200, "timeout_thorough": 7200},
     "C15": {"jobs": [{"pkg": "iter", "run": "^TestC15$", "checks_quick": 4000, "checks_thorough": 25000, "shards_thorough": 16}]},
     "C17": {"jobs": [{"pkg": "load", "run": "^TestC17$", "checks_quick": 1500, "checks_thorough": 3000, "shards_thorough": 16}]},
     "C18": {"jobs": [{"pkg": "codec", "run": "^TestC18$", "checks_quick": 3000, "checks_thorough": 15000, "shards_thorough": 16}]},
